@@ -60,9 +60,9 @@ def selfcheck_model_mutants(ctx):
     return out
 
 
-def drive(ctx, nscen, callers, percall, race=False):
+def drive(ctx, nscen, callers, percall, race=False, gates=True):
     binary = vf.build_gotest(ctx, ".", ["common", "conn"], race=race)
-    rc, out = vf.run_gotest(ctx, binary, "^TestVfConnStress$",
+    rc, out = vf.run_gotest(ctx, binary, "^TestVfConn(Stress|Gates)$" if gates else "^TestVfConnStress$",
                             env={"VF_NSCEN": nscen, "VF_CALLERS": callers, "VF_PERCALL": percall}, timeout=900)
     crashed = None
     if "panic:" in out and "--- PASS" not in out:
@@ -70,6 +70,9 @@ def drive(ctx, nscen, callers, percall, race=False):
         crashed = m.group(1) if m else "panic"
     if "VFHARNESS" in out:
         raise vf.Inconclusive("scenario setup failed:\n" + out[-2000:])
+    m = re.search(r"VFGATES written=(\d+) inconclusive=(.*)", out)
+    if gates and m and m.group(2).strip() not in ("[]", ""):
+        ctx.notes.append("gate scenarios inconclusive (not counted): " + m.group(2))
     files = sorted(glob.glob(os.path.join(ctx.tmp, "conn_*.ndjson")))
     if not files and not crashed:
         raise vf.Inconclusive("driver produced no traces:\n" + out[-2000:])
@@ -134,7 +137,10 @@ def run_conn(ctx, prop):
     # ---- strict conformance of small scenarios to Conn.tla's actions (binds the model to the code)
     for f in files:
         os.rename(f, f + ".big")
-    cfiles, ccrashed, _ = drive(ctx, nscen=16 if quick else 64, callers=3, percall=5)
+    cfiles, ccrashed, _ = drive(ctx, nscen=16 if quick else 64, callers=3, percall=5, gates=False)
+    cfiles += sorted(f[:-4] for f in glob.glob(os.path.join(ctx.tmp, "conn_g*.ndjson.big")))
+    for f in glob.glob(os.path.join(ctx.tmp, "conn_g*.ndjson.big")):
+        os.rename(f, f[:-4])
     acc, drifted, skipped, rejected, propviol = conformance(ctx, cfiles)
     ctx.log("conformance to Conn.tla: accepted=%d (with discipline drift %d) skipped=%d rejected=%d invariant violations=%d" % (
         acc, drifted, skipped, len(rejected), len(propviol)))
